@@ -193,6 +193,9 @@ def init (batch : Nat) : St :=
 /-- `tx_cycle`: COMMIT; BEGIN. -/
 def commit (s : St) : St := { s with committed := s.work }
 
+/-- The batch test of `SqliteWriter.write` as extracted is the one modelled below (`count % batch = 0`). -/
+def commitTestOk : Bool := Gen.sqliteCommitTest == "self.count % self.batch_size == 0"
+
 /-- One call of the writer, with `write` split at the point where it may commit before inserting. -/
 inductive Step (DT : Type) where
   | ensure (d : Desc)
@@ -217,7 +220,9 @@ def step {DT : Type} (E : Env DT) (s : St) : Step DT → St × Outcome
     if !s.isOpen then (s, .refused .closed)
     else if s.seen.contains d then (s, .ok)
     else if !ddlOk s.work d then ({ s with seen := d :: s.seen }, .refused .ddl)
-    else (commit { s with work := ddl s.work d, seen := d :: s.seen }, .ok)
+    else
+      let s1 := { s with work := ddl s.work d, seen := d :: s.seen }
+      (if Gen.sqliteFlushOnNewDescriptor then commit s1 else s1, .ok)
   | .insert d vals =>
     if !s.isOpen then (s, .refused .closed)
     else if vals.length != d.fields.length then (s, .refused .arity)
@@ -225,9 +230,9 @@ def step {DT : Type} (E : Env DT) (s : St) : Step DT → St × Outcome
       | .error r => (s, .refused r)
       | .ok xs =>
         let s2 := { s with work := insertRow E.store s.work d.name (zipCells d xs), count := s.count + 1 }
-        (if s2.count % s2.batch == 0 then commit s2 else s2, .ok)
+        (if commitTestOk && s2.count % s2.batch == 0 then commit s2 else s2, .ok)
   | .flush => (if s.isOpen then commit s else s, .ok)
-  | .close => ({ (if s.isOpen then commit s else s) with isOpen := false }, .ok)
+  | .close => ({ (if s.isOpen && Gen.sqliteCloseFlushes then commit s else s) with isOpen := false }, .ok)
 
 /-- A call of the public API. -/
 inductive Op (DT : Type) where
@@ -259,12 +264,13 @@ def runSteps {DT : Type} (E : Env DT) (s : St) (ms : List (Step DT)) : St := ms.
 /-- Does this step commit (make `work` visible to other connections)? Commit points are exactly: `flush`, `close`,
     the DDL of a descriptor not seen before, and every `batch`-th successful insert. -/
 def commits {DT : Type} (E : Env DT) (s : St) : Step DT → Bool
-  | .ensure d => s.isOpen && !s.seen.contains d && ddlOk s.work d
+  | .ensure d => s.isOpen && !s.seen.contains d && ddlOk s.work d && Gen.sqliteFlushOnNewDescriptor
   | .insert d vals =>
     s.isOpen && vals.length == d.fields.length &&
-      (match dbValues E.iso vals with | .ok _ => true | .error _ => false) && (s.count + 1) % s.batch == 0
+      (match dbValues E.iso vals with | .ok _ => true | .error _ => false) &&
+      commitTestOk && (s.count + 1) % s.batch == 0
   | .flush => s.isOpen
-  | .close => s.isOpen
+  | .close => s.isOpen && Gen.sqliteCloseFlushes
 
 /-- No step of `ms`, started in `s`, commits. -/
 def quiet {DT : Type} (E : Env DT) (s : St) : List (Step DT) → Bool
